@@ -55,7 +55,25 @@ ASSUMPTIONS = [
     'age = expiry is only compared with the model (drift.step)',
 ]
 
-_REAL_T = {'a': 'proid.a#0000000001', 'b': 'proid.b#0000000002', 'n': 'proid.n#0000000257'}
+# Instance numbers: the trace shard is '{:04X}'.format(number % 256), so the pool covers shard
+# names with hex letters (000A, 000B, 001A, 00AB, 00FF), all-digit ones, 0000 (via 256) and
+# numbers beyond one byte that wrap onto them (266 -> 000A, 4095 -> 00FF).
+POOL = [1, 2, 9, 10, 11, 26, 171, 255, 256, 266, 4095]
+# default mapping (selftest, replays): a and n share shard 000A as in the model, b is in 00AB
+_REAL_T = {'a': 'proid.a#0000000010', 'b': 'proid.b#0000000171', 'n': 'proid.n#0000000266'}
+
+
+def real_map(scn_name, rng):
+    """Seeded mapping of the model's instance names to real names with numbers from POOL
+    (server names are hashed into shards by md5: srv1 -> 005C, srv2 -> 00C3 have letters)."""
+    scn = SCN[scn_name]
+    if scn['mode'] == 'server':
+        return dict(scn['real'])
+    names = sorted(scn['real'])
+    nums = rng.sample(POOL, len(names))
+    return {m: 'proid.%s#%010d' % (m if scn['mode'] == 'trace' else 'f', n)
+            for m, n in zip(names, nums)}
+
 SCN = {
     'trace': dict(mode='trace', shards=[1, 2], inst_seq=['a', 'b'], new=['n'], init=5,
                   spare=[6, 7], ev_inst={1: 'a', 2: 'a', 3: 'b', 4: 'b', 5: 'a', 6: 'n', 7: 'b'},
@@ -63,7 +81,8 @@ SCN = {
     'finished': dict(mode='finished', shards=[1], inst_seq=[], new=[], init=5, spare=[6],
                      ev_inst={i: 'f%d' % i for i in range(1, 7)},
                      ev_shard={i: 1 for i in range(1, 7)},
-                     real={'f%d' % i: 'proid.f#%010d' % i for i in range(1, 7)}),
+                     real={'f%d' % i: 'proid.f#%010d' % n
+                           for i, n in zip(range(1, 7), [10, 2, 171, 255, 256, 26])}),
     # srv1 -> shard 005C, srv2 -> shard 00C3 (md5), same order as the model's shards 1 < 2
     'server': dict(mode='server', shards=[1, 2], inst_seq=[], new=[], init=5, spare=[6],
                    ev_inst={1: 's1', 2: 's1', 3: 's2', 4: 's2', 5: 's1', 6: 's2'},
@@ -184,9 +203,9 @@ def _model_check(ctx):
 
 # ---------------------------------------------------------------------------
 # TLC behaviours -> histories for the driver
-def _setup_from_seeds(scn, sched, seeds, now0=NOW0):
+def _setup_from_seeds(scn, sched, seeds, now0=NOW0, real=None):
     """sched: {model inst: bool}; seeds: {id: ts (model units)} -> setup steps."""
-    real = scn['real']
+    real = real or scn['real']
     setup = []
     mode = scn['mode']
     if mode == 'trace':
@@ -207,8 +226,8 @@ def _setup_from_seeds(scn, sched, seeds, now0=NOW0):
     return setup
 
 
-def _env_step(scn, label, args):
-    real = scn['real']
+def _env_step(scn, label, args, real=None):
+    real = real or scn['real']
     mode = scn['mode']
     if label == 'Tick':
         return ['Tick', int(args[0]) * UNIT]
@@ -226,9 +245,10 @@ def _env_step(scn, label, args):
     raise tlc.MachineryError('unknown environment label %s' % label)
 
 
-def labels_to_history(scn_name, labels, batch=BATCH, expiry=EXPIRY):
+def labels_to_history(scn_name, labels, batch=BATCH, expiry=EXPIRY, real=None):
     """One TLC behaviour of Archive.tla -> dict(setup, steps) for the driver."""
     scn = SCN[scn_name]
+    real = real or scn['real']
     mode = scn['mode']
     nsh = len(scn['shards'])
     sched, seeds = {}, {}
@@ -280,7 +300,7 @@ def labels_to_history(scn_name, labels, batch=BATCH, expiry=EXPIRY):
         elif label in ('ReadHist', 'ReadLive'):
             pass                       # the split reader is a model-only experiment
         else:
-            step = ['Read', mode] if label == 'Read' else _env_step(scn, label, args)
+            step = ['Read', mode] if label == 'Read' else _env_step(scn, label, args, real)
             if run is not None:
                 if run['writes'] == 0 and run['listed'] < nsh:
                     run['inject'].append(['list', run['listed'], step])
@@ -294,11 +314,12 @@ def labels_to_history(scn_name, labels, batch=BATCH, expiry=EXPIRY):
     if steps and steps[-1][0] == 'Archive' and steps[-1][4]:
         steps.append(['Archive', mode, batch, expiry * UNIT // 1000, 0, []])
     steps.append(['Prune', mode, 1, 0])
-    return dict(setup=_setup_from_seeds(scn, sched, seeds), steps=steps)
+    return dict(setup=_setup_from_seeds(scn, sched, seeds, real=real), steps=steps)
 
 
 def _generate_tlc(ctx):
     out = []
+    rng = random.Random(ctx.seed * 4099 + 18)
     n = 40 if ctx.quick else 800
     around = {4, 5, 6, 7}
     for k, scn in enumerate(('trace', 'finished', 'server')):
@@ -313,13 +334,13 @@ def _generate_tlc(ctx):
                                        extra_files=files, timeout=120 if ctx.quick else 900)
         ctx.cmds.append(cmd)
         for b in behaviours:
-            out.append((scn, 'tlc', labels_to_history(scn, b)))
+            out.append((scn, 'tlc', labels_to_history(scn, b, real=real_map(scn, rng))))
     return out
 
 
 # ---------------------------------------------------------------------------
 # seeded random histories beyond the model-checked constants
-_INST_IDS = [1, 2, 3, 257, 258, 513, 4]
+_INST_IDS = POOL
 _OFFSETS = [-5000, -2000, -1000, -250, 0, 0, 250, 1000, 3000]
 
 
@@ -393,7 +414,8 @@ def exhaustive_populations(rng, limit):
     out = []
     for ts in combos[:limit]:
         for sa, sb in ((False, False), (True, False), (False, True)):
-            setup = _setup_from_seeds(scn, {'a': sa, 'b': sb}, dict(enumerate(ts, 1)))
+            setup = _setup_from_seeds(scn, {'a': sa, 'b': sb}, dict(enumerate(ts, 1)),
+                                      real=real_map('trace', rng))
             out.append(dict(setup=setup, steps=[['Archive', 'trace', BATCH, EXPIRY, 0, []],
                                                ['Prune', 'trace', 1, 0]]))
     return out
